@@ -311,7 +311,7 @@ def snapshot(g):
     return ([(k, dict(d)) for k, d in g.nodes(data=True)], [(u, v, dict(d)) for u, v, d in g.edges(data=True)])
 
 
-def same_snapshot(s1, s2, ignore=(), allow_extra=False):
+def same_snapshot(s1, s2, ignore=(), allow_extra=False, only=None):
     """allow_extra: keys that appear only in the second snapshot are tolerated (scratch/bookkeeping a
     refactoring may add); every key of the first snapshot must still be there with an equal value."""
     (n1, e1), (n2, e2) = s1, s2
@@ -321,8 +321,8 @@ def same_snapshot(s1, s2, ignore=(), allow_extra=False):
         return False
     conds = []
     for (_, d1), (_, d2) in list(zip(n1, n2)) + [(("", a[2]), ("", b[2])) for a, b in zip(e1, e2)]:
-        k1 = [k for k in d1 if k not in ignore]
-        k2 = [k for k in d2 if k not in ignore]
+        k1 = [k for k in d1 if k not in ignore and (only is None or k in only)]
+        k2 = [k for k in d2 if k not in ignore and (only is None or k in only)]
         if allow_extra:
             if any(k not in d2 for k in k1):
                 return False
@@ -398,7 +398,10 @@ def c12(**p):
         s3 = ser(g2)
         c.oblige("serialize-repeatable", all_([str_eq(s1, s2), str_eq(s1, s3)]))
         g3 = canon(g)
-        c.oblige("canonicalize-repeatable", same_snapshot(snapshot(g2), snapshot(g3), ignore=SCRATCH))
+        # g2 has been serialized in between (it may carry scratch flags of any name): compare the attributes the
+        # input graph has, plus the partition class
+        vocab = {k for _, d in g.nodes(data=True) for k in d} | {k for _, _, d in g.edges(data=True) for k in d} | {"partition"}
+        c.oblige("canonicalize-repeatable", same_snapshot(snapshot(g2), snapshot(g3), only=vocab))
         c.oblige("input-unchanged-by-repeat", same_snapshot(before, snapshot(g), ignore=SCRATCH))
         s4 = ser(canon(g))
         c.oblige("pipeline-repeatable", str_eq(s1, s4))
